@@ -252,9 +252,15 @@ def big_vector_lp(rng):
     decls = [{"k": "vec", "name": "x", "n": n, "lb": 0.0, "ub": 4.0}]
     w = [float(1 + (3 * i) % 7) for i in range(n)]
     v = [float(2 + (5 * i + 1) % 9) for i in range(n)]
-    cons = [["rel", "<=", ["matmul", ["arr", w], x], ["raw", 30.0, "float"], "direct"]]
+    decls[0]["lb"] = rng.choice([0.0, -1.0])
+    # the data as the user has them: counts and weights in unsigned / small integer arrays
+    ui = rng.choice(["uint8", "uint16", "uint32", None])
+    wa = ["arr", [int(c) for c in w], ui] if ui else ["arr", w]
+    cons = [["rel", "<=", ["matmul", wa, x], ["raw", 30.0, "float"], "direct"]]
+    cover = [int(1 + i % 3) for i in range(n)]
+    cons.append(["rel", ">=", ["matmul", ["arr", cover, rng.choice(["uint8", "uint16", "int8"])], x], ["raw", 2.0, "float"], "direct"])
     if rng.random() < 0.5:
-        cons.append(["rel", ">=", ["matmul", x, ["arr", [float(i % 3) for i in range(n)]]], ["raw", 2.0, "float"], "direct"])
+        cons.append(["rel", ">=", ["mv", [[int((i + r_) % 4) for i in range(n)] for r_ in range(2)], x, rng.choice(["uint8", "uint16"])], ["arr", [1.0, 2.0]], "direct"])
     if rng.random() < 0.5:
         cons.append(["rel", "<=", ["sum", x], ["raw", 9.0, "float"], "direct"])
     return {"decls": decls, "objective": ["matmul", ["arr", v], x], "sense": "max", "constraints": cons}
